@@ -7,6 +7,8 @@ NOTES = ("All checks are property-based tests / fuzzers (pgregory.net/rapid v1.3
 ENGINES = [
     {"name": "simexec", "path": "harness/sim", "serves_properties": ["C01", "C02", "C03", "C04", "C05", "C10", "C15"],
      "kind_free_text": "scripted in-process executor registered with the real executor registry + harness-owned release schedule; trace oracles"},
+    {"name": "graphenum", "path": "harness/chk/c14", "serves_properties": ["C14"],
+     "kind_free_text": "small-scope exhaustive digraph enumeration + random graphs with planted cycles; independent DFS oracle"},
 ]
 
 SIM_NOTE = ("Trusted: the scripted executor's fidelity to the real command executor's contract; the Go runtime; rapid's generators. "
@@ -48,6 +50,12 @@ META = {
         "technique": "property-based testing (rapid) with generated stop/timeout injection at trace positions; trace-invariant oracle (signal fan-out, no start after stop, force-kill, handlers) and bounded liveness with confirmed re-run",
         "level_text": "Generated search over DAG x stop instant x signal behaviour x repeat/retry x timeout; the harness owns the stop instant (including the window between executor creation and process start) and the SIGKILL escalation.",
         "level_note": SIM_NOTE,
+    },
+    "C14": {
+        "engine": "graphenum", "design_ref": "DESIGN.md section 3 C14",
+        "technique": "small-scope exhaustive generation + property-based testing (rapid) against an independent DFS cycle/dangling-name oracle (differential)",
+        "level_text": "Exhaustive over every digraph on <=4 steps (and, thorough, all 2^20 loop-free edge sets on 5); generated search with planted cycles up to 40 steps. Exhaustive only for the listed sub-spaces.",
+        "level_note": "Trusted: the 25-line DFS oracle. The agent-level clause (refused run executes nothing and records nothing) is checked on a sampled subset.",
     },
 }
 
